@@ -12,6 +12,7 @@ Requests (whitespace separated words; rationals as `num/den`, non-finite cells a
   cert   <system(term = ford)> <data> <nG> <QMat g>…          -> `residual vector | path cells`
   simlin <system> <data>                                      -> exact zero of the affine stacked system, `singular`, or `nan`
 
+  method <string>                                             -> METHOD_NAME of the simulator module the string selects, or `KeyError`
   pair   <N> <nModel> <nData>                                 -> `k:modelVariant:dataVariant …` (`-` = none) of the zip in Inlay.simulate
   hist   <nP> q… <nInit> (q v)… <nOps> (a obj q v | c obj | s obj)…   -> per op `-` or the parameter overwrites `q=v,…`, joined by ` | `
   termlog <nRows> logly… <nTok> (q s)… <nCurr> (q i)… <maxLead> <last> <n> T… K… <rows> <cols> cell…   (floats as their 64 bits)
@@ -164,6 +165,9 @@ def stepP : P String := do
     let n ← nat; let endo ← rep n nat; let first ← nat; let simLast ← nat; let fb ← rat; let d ← dataP
     let spots := wrtSpots endo (columnsToRun first simLast)
     pure (" ".intercalate ((missingSpots spots d).map (fun (q, c) => s!"{q}:{c}")) ++ " | " ++ showData (catchMissing spots fb d))
+  | "method" => do
+    let w ← word
+    pure (match resolveMethod w with | some m => m.name | none => "KeyError")
   | "pair" => do
     let n ← nat; let nM ← nat; let nD ← nat
     pure (" ".intercalate ((pairVariants n (List.range nM) (List.range nD)).map
